@@ -48,6 +48,10 @@ def sigkey(part, kind, b, l, n1):
     if "@" in kind or kind.startswith("exc"):
         return (part, kind)
     ft = nf_features(n1)
+    if kind.endswith("-segment") and any(o[0] == "mem" and o[2] is None and o[3] == frozenset([("ebp", 1)]) for o in n1.ops):
+        # [ebp*1+disp32]: ebp as an index without base (default segment ds).  miasmX's operand dictionary is {ebp: 1, disp}, the same as
+        # for [ebp+disp32] (base ebp, default ss), and is printed like the latter: one root cause in the representation, for every row
+        return (part, "other-instruction:default-segment", "ebp-index-without-base")
     if "16-bit-addressing" in ft:
         return (part, kind, ft)          # neither assembler front end has 16-bit addressing at all: one root cause, nothing in it can regress
     if ft:
@@ -182,7 +186,7 @@ def main(run):
                 "that passed a part of the check; distinct by bytes")
     run.assumptions = ["objdump defines the instruction a byte string encodes and whether a prefix is superfluous; GNU as 2.40 defines valid input",
                        "the compiler-emitted class is decided on the reference normal form (no relative branch operand, no absolute numeric memory operand, no far pointer)"]
-    cs = set(x86space.cases(run.tier, run.seed, thin=run.pick(2, 1))) | set(x86space.modrm_grid()) | set(x86space.x87_cases()) | set(x86space.boundary_value_cases())
+    cs = set(x86space.cases(run.tier, run.seed, thin=run.pick(2, 1))) | set(x86space.modrm_grid()) | set(x86space.segment_grid(*run.pick(((b"\x8b", b"\xff", b"\x0f\xb6"),), ()))) | set(x86space.x87_cases()) | set(x86space.boundary_value_cases())
     runner.pmap(run, worker, runner.chunks(sorted(cs), 64))
 
 
